@@ -171,6 +171,11 @@ class Reader:
             return True
         if c == "plain" and self.cls(self.peek(1)) == "=":
             return True
+        if c == "valuekw" and self.cls(self.peek(1)) == "=":
+            # 'a = TRUE = 1': the value of a, or a parameter named TRUE after a missing
+            # value?  The library reads the latter since b6a06e9 ('TRUE = 1' is an
+            # assignment to every parser); the specifications do not settle it.
+            raise Ambiguous("NULL/TRUE/FALSE followed by '=' after '='")
         return False
 
     def value(self):
